@@ -144,10 +144,19 @@ func TestC25_Known_EmptyBlob(t *testing.T) {
 		Case{Mode: "write", D: 2, P: 1, Size: 0, Damage: dmgList(3, nil)})
 }
 
+// TestC25_Known_ShortShardPanic is the regression of the FIXED finding short-shard-panic
+// (/repo 6ce493d2): a shard file shorter than the 17-byte metadata used to kill the process
+// in GetOne's reader goroutine. Always on; the class is never excluded from the search.
 func TestC25_Known_ShortShardPanic(t *testing.T) {
-	knownTest(t, "C25", slugShort, "the process died",
-		Case{Mode: "read", D: 1, P: 1, Size: 1, Damage: dmgList(2, map[int]Dmg{1: {Kind: TruncLow, T: 16}})},
-		Case{Mode: "read", D: 2, P: 2, Size: 100, ContentKind: 2, Seed: 7, Damage: dmgList(4, map[int]Dmg{0: {Kind: TruncLow, T: 0}})})
+	rec := stats.For("C25")
+	for _, c := range []Case{
+		{Mode: "read", D: 1, P: 1, Size: 1, Damage: dmgList(2, map[int]Dmg{1: {Kind: TruncLow, T: 16}})},
+		{Mode: "read", D: 2, P: 2, Size: 100, ContentKind: 2, Seed: 7, Damage: dmgList(4, map[int]Dmg{0: {Kind: TruncLow, T: 0}})},
+		{Mode: "read", D: 1, P: 2, Size: 1, ContentKind: 2, Seed: 270227, ExtraCap: 1, Damage: dmgList(3, map[int]Dmg{2: {Kind: TruncLow, T: 3}})},
+		{Mode: "read", Repair: true, D: 3, P: 2, Size: 50, ContentKind: 2, Seed: 9, Damage: dmgList(5, map[int]Dmg{1: {Kind: TruncLow, T: 8}, 4: {Kind: TruncLow, T: 16}})},
+	} {
+		evaluate(t, rec, "C25", "TestC25_Known_ShortShardPanic", c)
+	}
 }
 
 func TestC25_Known_UnequalShardLength(t *testing.T) {
